@@ -296,7 +296,12 @@ def check_case(case, res: Result):
         seen_req[q[2]] = seen_req.get(q[2], 0) + 1
     dup_req = {i for i, c in seen_req.items() if c >= 2}
 
-    stop_race = CR.stop_race_tainted(all_reqs, alive_at_tick_start, name_of, conflicts, UOD_NAMES)
+    init_ticks = {i: [e[0] for e in evs if e[1] == "init"] for i, evs in per.items()}
+    stop_race = CR.stop_race_tainted(all_reqs, alive_at_tick_start, name_of, conflicts, UOD_NAMES, init_ticks)
+
+    # (name, stop tick) of instances touched by the Stop race that were still alive when that Stop completed
+    leaked = [(name_of[i], st) for st in stop_ticks for i in stop_race
+              if i in per and per[i][0][0] <= st and (fin_tick(i) is None or fin_tick(i) > st)]
 
     def in_burst(involved):
         return any(i in ids for ids in burst.values() for i in involved)
@@ -321,6 +326,11 @@ def check_case(case, res: Result):
             #     record.last_instance_id instead of the id created for its own visit, so two interpreter paths walking
             #     the same line (stale Watch/Alarm handler surviving a reset, see C02 findings) request "the same" instance
             mech = "C11.two_requests_share_one_instance_id"
+        elif involved and all(any(conflicts(name_of[i], ln) and per[i][0][0] > lt for ln, lt in leaked) for i in involved
+                              if i in name_of):
+            # (d') cascade of (d): the instance that survived an earlier Stop/Restart stays in uod.command_instances and
+            #      is re-used *by name* by every later request of that command (exec under the old id, no init)
+            mech = "C11.request_queued_before_stop_in_same_tick"
         elif any(i in cancel_aborted for i in involved):
             # (b) CommandManager._cancel_command called cmd.cancel() on the instance, then Tracking.mark_cancelled raised
             #     because the AST node refused node.cancel() (its cancel flag was already set by an earlier cancel of
